@@ -168,6 +168,10 @@ func (bq *Queue[Q]) Put(element Q) error {
 				h = bq.chain.Height()
 				if h+uint32(bq.cacheSize) >= element.GetIndex() {
 					bq.queueLock.Lock()
+					// The queue could have been discarded while we were not holding the lock.
+					if bq.discarded.Load() {
+						return nil
+					}
 					break
 				}
 			}
